@@ -1944,6 +1944,8 @@ impl<'a> Runner<'a> {
             for e in rep.errors {
                 let cl = if e.starts_with("double-free") {
                     "double-free"
+                } else if e.starts_with("write-after-free") {
+                    "write-after-free"
                 } else {
                     "dealloc-layout-mismatch"
                 };
